@@ -427,6 +427,7 @@ func (pr *propResult) finish(eng *Engine, cfg *PropConfig, tier string, seed int
 	usedCon := map[string]bool{}
 	unknown := map[string]bool{}
 	usedAx := map[string]bool{}
+	assumedFr := map[string]bool{}
 	for _, run := range pr.runs {
 		if run.aborted == "" && !strings.HasPrefix(run.key, "lemma:") {
 			fnKeys = append(fnKeys, run.key)
@@ -442,6 +443,9 @@ func (pr *propResult) finish(eng *Engine, cfg *PropConfig, tier string, seed int
 		}
 		for k := range run.usedAxioms {
 			usedAx[k] = true
+		}
+		for k := range run.assumedFrames {
+			assumedFr[k] = true
 		}
 	}
 	var perObl []map[string]any
@@ -485,6 +489,13 @@ func (pr *propResult) finish(eng *Engine, cfg *PropConfig, tier string, seed int
 			note = fc.Note
 		}
 		assumptions = append(assumptions, "assumed external contract: "+k+" — "+note)
+	}
+	for _, k := range sortedKeys(assumedFr) {
+		note := ""
+		if fc := eng.contracts[k]; fc != nil {
+			note = fc.Note
+		}
+		assumptions = append(assumptions, "assumed frame (callers rely on it, the body is not verified against it): "+k+" — "+note)
 	}
 	for _, k := range sortedKeys(unknown) {
 		assumptions = append(assumptions, "call without a contract treated as arbitrary (heap forgotten, result unconstrained): "+k)
